@@ -520,21 +520,15 @@ class Filer(hioing.Mixin):
                 if self.file:  # self.file is File instance
                     self.file = None  #
 
-                if self.temp:  # remove trailing dir of path as well
-                    head, tail = os.path.split(self.path)
-                    shutil.rmtree(head)  # rm dir head as root and all below head
-
             elif self.extensioned:  # path end has file extension
                 os.remove(self.path)  # rm only extensioned end of path
-
-                if self.temp:  # remove trailing dir of path as well
-                    head, tail = os.path.split(self.path)
-                    shutil.rmtree(head)  # rm dir head as root and all below head
 
             else:
                 shutil.rmtree(self.path)  # remove trailing dir of path (and all below)
 
-        if self.temp and self.path:  # remove temp head dir made by remake if any
+        # when temp remove temp head dir made by remake if any with all below it
+        # but only when .path is inside it, .path may be a reused persistent path
+        if self.temp and self.path:
             tempDirPath = os.path.abspath(self.TempHeadDir)
             head = self.path
             while os.path.dirname(head) not in (head, tempDirPath):
